@@ -705,7 +705,7 @@ func TestCheck(t *testing.T) {
 		len(w.shapes), len(w.hiers), lkn, len(red), map[bool]string{false: "one of the four first clocks per (shape, form), rotating", true: "each of the four first clocks"}[th]))
 	r.Assume(
 		"a precertificate issued by a signing certificate WITHOUT authority key identifier while the precertificate has one is outside RFC 6962 s3.2 (the extension 'must also be present'); the statement is silent, the expected TBSCertificate then has the extension removed, as documented for x509.BuildPrecertTBS",
-		"when the precertificate has no authority key identifier, RFC 6962 s3.2 changes only the issuer name: the expected TBSCertificate gains no extension",
+		"a precertificate WITHOUT authority key identifier issued by a signing certificate that has one: RFC 6962 s3.2 and the statement are silent; the expected TBSCertificate carries the signing certificate's extension (value verbatim, non-critical) appended as its last extension, as documented and test-pinned for x509.BuildPrecertTBS (same assumption as C03: the documented behaviour defines the corresponding final certificate)",
 		"a TBSCertificate left without any extension after de-poisoning has no extensions field (RFC 5280 s4.1: Extensions ::= SEQUENCE SIZE (1..MAX))",
 		"the signature algorithm identifier inside the TBSCertificate is left as signed (RFC 6962 requires the final issuer to use the same algorithm; not enforced by a log)",
 		"SCT signatures are judged by the algorithm RFC 6962 s2.1.4 allows for the key type: (sha256, ecdsa) via ecdsa.VerifyASN1 or (sha256, rsa) via rsa.VerifyPKCS1v15; for P-384 and Ed25519 log keys (thorough) a non-200 is counted, not reported, a 200 is judged the same way",
